@@ -100,6 +100,18 @@ Proof. exact glue_slice_defaults. Qed.
 Print Assumptions C11_glue_slice_defaults.
 Close Scope string_scope.
 
+(** ---- function bodies REGENERATED from the source as glue terms (Gen/ProcessGlue.v), run by the interpreter of Model/GlueFun.v with
+     the leaves of Model/GlueLeaves.v (callees mean their models), are the hand-written models ---- *)
+From TW Require Import Model.GlueLeaves Gen.ProcessGlue Proofs.GlueProcessProofs.
+Open Scope string_scope.
+Theorem C11_glue_truncate : forall x y xl xr lr rr, x <> [] ->
+  outcome_arr_pair (call_fun (process_callf (fun v => v)) array_methf no_apply no_pow process_functions "truncate"
+     [("x", VArr x); ("y", VArr y); ("x_left", VNum xl); ("x_right", VNum xr); ("x_left_as_ratio", VBoolV lr); ("x_right_as_ratio", VBoolV rr)])
+  = truncate x y xl xr lr rr.
+Proof. exact glue_truncate. Qed.
+Print Assumptions C11_glue_truncate.
+Close Scope string_scope.
+
 Example C11_example :
   match truncate [qz 0; qz 1; qz 2; qz 3; qz 4] [qz 5; qz 6; qz 7; qz 8; qz 9] (qf 3 2) (qf 5 2) false false with
   | Ok r => list_eqb Qc_eqb (fst r) [qz 1; qz 2; qz 3] && list_eqb Qc_eqb (snd r) [qz 6; qz 7; qz 8]
